@@ -90,8 +90,15 @@ def run(chk):
             entries, alphabet = tablegen.gen_c05_table(r, collide=r.chance(0.5))
             text = tablegen.table_text(entries)
         else:
-            entries, rules, _ = tablegen.gen_c06_table(r, directions=("noback", "nofor"))
+            entries, rules, letters_ = tablegen.gen_c06_table(r, directions=("noback", "nofor"))
             text = tablegen.pass_table_text(entries, rules)
+            if r.chance(0.5):
+                # swap classes, grouping pairs and rules that refer to them by name - also to names that do not exist, behind
+                # one that does (the table is then either rejected or consistent)
+                text += "\n".join(tablegen.gen_group_swap_rules(r, letters_, [0x8000 | e.dots[0] for e in entries])) + "\n"
+                if r.chance(0.5):
+                    text += r.choice(["noback correct [%sw]%nosuch %sw", "noback correct [%sw] %sw%nosuch", "noback correct {gp{nosuch ?",
+                                      "noback pass2 [%ss] %ss;nosuch", "noback pass2 {gp}nosuch *"]) + "\n"
         p = work / ("g%d.utb" % i)
         p.write_text(text)
         cmds.append(("generated:%d" % i, "I %s" % p, text))
